@@ -15,14 +15,20 @@ def sh(cmd, **kw):
     return subprocess.run(cmd, shell=True, stdout=subprocess.PIPE, stderr=subprocess.STDOUT, **kw)
 
 
+# mutated nodes are built into their own target directory and used through SIMNODE_BIN, so the regular binary
+# (and any exploration that is running with it) never sees a seeded change
+MUT_TARGET = "/verif/simnode/target-mut"
+MUT_BIN = MUT_TARGET + "/debug/simnode"
+
+
 def build():
-    r = sh("cd /verif/simnode && CARGO_NET_OFFLINE=true cargo build --quiet")
+    r = sh(f"cd /verif/simnode && CARGO_NET_OFFLINE=true CARGO_TARGET_DIR={MUT_TARGET} cargo build --quiet")
     return r.returncode == 0, r.stdout.decode(errors="replace")[-2000:]
 
 
 def run_check(prop, tier, seed):
     t0 = time.time()
-    r = sh(f"cd {ROOT} && ./check {prop} --tier {tier} --no-build --seed {seed}")
+    r = sh(f"cd {ROOT} && SIMNODE_BIN={MUT_BIN} ./check {prop} --tier {tier} --no-build --no-evidence --seed {seed}")
     out = r.stdout.decode(errors="replace")
     clauses = re.findall(r"clause=(\S+) occurrences=(\d+)", out)
     viol = [l for l in out.splitlines() if l.startswith("VIOLATION")]
@@ -72,7 +78,6 @@ def main():
                   c0.get("exit"), c0.get("clauses"), flush=True)
     finally:
         sh(f"git -C {REPO} checkout -- .")
-        build()
     mpath = f"{ROOT}/seeded/MATRIX.json"
     prev = {r["id"]: r for r in (json.load(open(mpath)) if os.path.exists(mpath) else [])}
     prev.update({r["id"]: r for r in rows})
